@@ -288,6 +288,8 @@ class ScanLoop:
         if isinstance(lst, VOpt):
             lst = lst.val
         fn = oracle(st, PUT)
-        return [("index-range", z3.And(0 <= i, i <= lst.len)),
+        quiet = all(len(st.ghost.get(k, [])) == len(entry.ghost.get(k, [])) for k in ("puts", "gets", "tokens", "waits", "spawned"))
+        return [("scan-has-no-effect", z3.BoolVal(quiet), ("C03", "C10", "C09")),
+                ("index-range", z3.And(0 <= i, i <= lst.len)),
                 ("edges-scanned-so-far-are-full", Forall(1, lambda j: z3.Implies(
                     z3.And(0 <= j, j < i), z3.Not(fn(store_of_edge(st, lst.at(j).t)))), [lst.len], "scan"))]
